@@ -444,6 +444,42 @@ def recertification_cases():
     return out
 
 
+def appended_flags_cases():
+    """capabilities come from SIGNED key flags: a Key Flags subpacket appended to the unhashed area of a self-signature or binding signature
+    (the signature stays valid) grants nothing. Keys: a primary whose self-signature carries no hashed Key Flags subpacket, with an encryption
+    subkey; the appended subpacket claims signing and encryption for the primary."""
+    out = []
+    for alg in ('ed25519', 'p256'):
+        case = {'alg': alg, 'kind': 'appended-unhashed-key-flags', 'form': 'imported', 'enforce': True, 'op': 'sign+encrypt'}
+        probs = []
+        try:
+            k = tpk.new_key(alg, T0, slot=0)
+            k.add_uid(pgpy.PGPUID.new('U0', email='u0@example.org'), created=T0, **PREFSETS[0])           # no usage=: no Key Flags subpacket at all
+            ek = tpk.new_key('cv25519', T0, slot=1)
+            k.add_subkey(ek, usage=kf(EC | ES), created=dt(1))
+            pk = indep.packets(bytes(k))
+            i = [j for j, (t, b, r) in enumerate(pk) if t == 2][0]          # the self-certification of U0 (first signature packet)
+            forged = tpk.append_unhashed(pk[i][2], bytes([2, 27, 0x0E]))     # sign + both encryption flags, in the unhashed area
+            blob = b''.join(forged if j == i else r for j, (t, b, r) in enumerate(pk))
+            k2, _ = pgpy.PGPKey.from_blob(blob)
+            pub2 = k2.pubkey
+            if not pub2.verify(pub2.userids[0]):
+                probs.append('harness error: the self-certification with the appended subpacket no longer verifies')
+            st, val = attempt(lambda: k2.sign(TEXT, created=dt(50)))
+            if st == 'ok':
+                probs.append('sign: carried out by %s on the strength of key flags appended to the unhashed area (the signed flags grant no signing)' % val.signer)
+            st, val = attempt(lambda: pub2.encrypt(pgpy.PGPMessage.new(TEXT)))
+            if st == 'ok':
+                rec = [b[1:9].hex().upper() for t, b, r in indep.packets(bytes(val)) if t == 1]
+                want = str(ek.fingerprint).replace(' ', '')[-16:].upper()
+                if rec != [want]:
+                    probs.append('encrypt: session key addressed to %s, the only component with signed encryption flags is the subkey %s' % (rec, want))
+        except Exception as ex:
+            probs.append('harness error: %s: %s' % (type(ex).__name__, str(ex)[:80]))
+        out.append({'case': case, 'problem': probs[0] if probs else None, 'nontrivial': True})
+    return out
+
+
 NOSIGN6 = [C, EC, ES, AU, 0, EC | ES]
 
 
@@ -516,6 +552,7 @@ def _worker(args):
     if widx == 0:
         res += no_identity_cases()
         res += recertification_cases()
+        res += appended_flags_cases()
     return res
 
 
